@@ -11,9 +11,11 @@ man = json.load(open(os.path.join(common.VERIF, "MANIFEST.json")))
 targets = ["NfcVerif.Py"]
 for c in man["checks"]:
     mod = importlib.import_module("props." + c["property_id"].lower())
-    for t in getattr(mod, "LEAN_TARGETS", []):
-        if t not in targets:
-            targets.append(t)
+    mods = [mod] + [importlib.import_module("props.%s_%s" % (c["property_id"].lower(), p)) for p in getattr(mod, "PARTS", [])]
+    for m in mods:
+        for t in getattr(m, "LEAN_TARGETS", []):
+            if t not in targets:
+                targets.append(t)
 pre = getattr(common, "regenerate_all", None)
 if pre:
     pre()
